@@ -18,8 +18,13 @@ func VerifC10Step() {
 	conn.badness = time.Duration(b)
 	conn.lastsent = vNow() // clock reading 0: any instant
 	ret := conn.rateLimit(chars)
-	vAssert(vEventCount("now") == 3, "reads-clock-twice")
-	t0, t1, t2 := vEventInt("now", 0), vEventInt("now", 1), vEventInt("now", 2)
+	// the implementation may read the clock once or several times: the elapsed time is measured at
+	// its first reading, and the new "last accounting" instant is some reading taken during the call
+	vAssert(vEventCount("now") >= 2, "reads-the-clock")
+	if vEventCount("now") < 2 {
+		return
+	}
+	t0, t1, t2 := vEventInt("now", 0), vEventInt("now", 1), vEventInt("now", vEventCount("now")-1)
 	charge := 2*vSec + chars*vSec/120
 	nb := b + charge - (t1 - t0)
 	if nb < 0 {
@@ -32,7 +37,8 @@ func VerifC10Step() {
 		want = charge
 	}
 	vAssert(int(ret) == want, "hold-iff-over-10s")
-	vAssert(conn.lastsent.Sub(time.Time{}) == time.Duration(t2), "lastsent-is-second-reading")
+	ls := int(conn.lastsent.Sub(time.Time{}))
+	vAssert(ls >= t1 && ls <= t2, "lastsent-is-a-reading-taken-during-the-call")
 	vReach("end")
 }
 
@@ -69,6 +75,10 @@ func VerifC10Write() {
 		vAssert(vEventCount("sleep") == 0, "flood-never-sleeps")
 		vAssert(time.Duration(b) == conn.badness, "flood-no-accounting")
 	} else {
+		vAssert(vEventCount("now") >= 3, "reads-the-clock") // harness, limiter, wire stamp
+		if vEventCount("now") < 3 {
+			return
+		}
 		t0, t1 := vEventInt("now", 0), vEventInt("now", 1)
 		nb := b + vCharge(n) - (t1 - t0)
 		if nb < 0 {
@@ -113,18 +123,23 @@ func VerifC10Window() {
 		nowBefore, sleepsBefore := vEventCount("now"), vEventCount("sleep")
 		err := conn.write(vFill(n))
 		vAssert(err == nil, "write-ok")
-		t1, t2 := vEventInt("now", nowBefore), vEventInt("now", nowBefore+1)
+		vAssert(vEventCount("now") >= nowBefore+2, "reads-the-clock") // at least: the limiter's reading and the wire stamp
+		if vEventCount("now") < nowBefore+2 {
+			return
+		}
+		t1 := vEventInt("now", nowBefore) // the limiter's first reading for this line
 		pen = pen + charges[i] - (t1 - last)
 		if pen < 0 {
 			pen = 0
 		}
-		last = t2
-		ready := t2
+		last = int(conn.lastsent.Sub(time.Time{})) // whichever reading the limiter kept
+		vAssert(last >= t1, "lastsent-not-before-the-accounting")
+		// the instant the line was ready for the socket: the last reading before the wire stamp
+		ready := vEventInt("now", vEventCount("now")-2)
 		if pen > 10*vSec {
 			vAssert(vEventCount("sleep") == sleepsBefore+1, "held-when-over")
 			if vEventCount("sleep") == sleepsBefore+1 {
 				vAssert(vEventInt("sleep", sleepsBefore) == charges[i], "held-own-charge")
-				ready = vEventInt("now", nowBefore+2) // reading taken when the hold ended
 			}
 		} else {
 			vAssert(vEventCount("sleep") == sleepsBefore, "not-held-when-under")
